@@ -754,11 +754,32 @@ def _teardown(world):
                 pass
         # registries of live collections kept at class level (whatever they are called): forget this world's
         # objects so that they cannot be flushed during a later execution in the same process
+        ids = {id(o) for o in list(world.objects) + [h for h in world.handle_objs if h is not None]}
+
+        def forget(val, depth=0):
+            """Remove this world's collections (and their raw ids) from a class-level container, whatever its shape."""
+            if isinstance(val, dict):
+                for key in [kk for kk, vv in val.items() if env.is_synced(vv) or (type(kk) is int and kk in ids)]:
+                    val.pop(key, None)
+            elif isinstance(val, list):
+                val[:] = [x for x in val if not env.is_synced(x) and not (type(x) is int and x in ids)]
+            elif isinstance(val, set):
+                for x in [x for x in val if (type(x) is int and x in ids) or env.is_synced(x)]:
+                    val.discard(x)
+            elif depth < 2 and not isinstance(val, (type, str, bytes, int, float, tuple, frozenset)) and val is not None \
+                    and type(val).__module__.startswith("synced_collections") and not env.is_synced(val):
+                for v in list(getattr(val, "__dict__", {}).values()):
+                    forget(v, depth + 1)
+                for c in type(val).__mro__:
+                    sl = c.__dict__.get("__slots__", ())
+                    for nm in ([sl] if isinstance(sl, str) else sl):
+                        if hasattr(val, nm):
+                            forget(getattr(val, nm), depth + 1)
+
         for base in k.__mro__:
             for name, val in list(vars(base).items()):
-                if isinstance(val, dict) and val and not name.startswith("__"):
-                    for key in [kk for kk, vv in val.items() if env.is_synced(vv)]:
-                        val.pop(key, None)
+                if not name.startswith("__"):
+                    forget(val)
         dc = env.default_capacity(world.cfg.clsname)
         if dc is not None and k.get_buffer_capacity() != dc:
             try:
